@@ -20,6 +20,7 @@ import (
 	"os"
 	"os/exec"
 	"path/filepath"
+	"sort"
 	"strings"
 	"sync"
 	"syscall"
@@ -27,14 +28,15 @@ import (
 
 	"github.com/ARM-software/golang-utils/utils/commonerrors"
 	"github.com/ARM-software/golang-utils/utils/subprocess"
+	commandUtils "github.com/ARM-software/golang-utils/utils/subprocess/command"
 
 	"verif/harness/internal/h"
 )
 
 const (
-	mStart = "@@C18-START@@"
-	mOK    = "@@C18-OK@@"
-	mFail  = "@@C18-FAIL@@"
+	mStartP = "@@C18-START-"
+	mOKP    = "@@C18-OK-"
+	mFailP  = "@@C18-FAIL-"
 )
 
 // ---------------------------------------------------------------------------------------------------------------------
@@ -145,6 +147,9 @@ type scenario struct {
 	LogDelayUs int      `json:"log_delay_us,omitempty"` // the recording logger takes this long for every message
 	StallAt    int      `json:"stall_at,omitempty"`     // ... and stalls once, at its n-th message (1-based),
 	StallMs    int      `json:"stall_ms,omitempty"`     // for this long
+	ID         string   `json:"id,omitempty"`           // makes the custom messages unique to the case
+	Entry      string   `json:"entry,omitempty"`        // public entry point of the package to go through (see entryPoints); "" = by Func / Env
+	As         string   `json:"as,omitempty"`           // command translator of the ...As... entry points: "" = command.Me(), "env" = NewCommandAsDifferentUser("env")
 	Func       bool     `json:"func,omitempty"`         // use the package-level functions (Execute / Output) instead of New + (*Subprocess).Execute / OutputWithEnvironment
 }
 
@@ -299,10 +304,11 @@ func errKind(err error) string {
 }
 
 var (
-	selfPath string
-	scratch  string
-	fileSeq  int
-	fileMu   sync.Mutex
+	sudoState string // absent | works | broken (found but unusable here): decided once at start-up
+	selfPath  string
+	scratch   string
+	fileSeq   int
+	fileMu    sync.Mutex
 )
 
 func tmpName(prefix string) string {
@@ -392,23 +398,7 @@ func runChild(sc scenario, attempt int) observation {
 	defer cancel()
 	start, okm, failm := "", "", ""
 	if sc.Msgs {
-		start, okm, failm = mStart, mOK, mFail
-	}
-	if sc.Kind == "output" {
-		var text string
-		var err error
-		if sc.Func && len(sc.Env) == 0 {
-			text, err = subprocess.Output(ctx, r, cmd, args...)
-		} else {
-			text, err = subprocess.OutputWithEnvironment(ctx, r, sc.Env, cmd, args...)
-		}
-		o.Text = text
-		o.ErrKind = errKind(err)
-		if err != nil {
-			o.ErrText = err.Error()
-		}
-		o.Log = r.snapshot()
-		return o
+		start, okm, failm = sc.mStart(), sc.mOK(), sc.mFail()
 	}
 	interrupt := func(how func()) {
 		if ready != "" && (sc.Cancel == "ctx" || sc.Cancel == "method") {
@@ -419,14 +409,18 @@ func runChild(sc scenario, attempt int) observation {
 			}()
 		}
 	}
-	if sc.Func && sc.Cancel != "method" {
-		var err error
-		interrupt(cancel)
-		if len(sc.Env) == 0 {
-			err = subprocess.Execute(ctx, r, start, okm, failm, cmd, args...)
-		} else {
-			err = subprocess.ExecuteWithEnvironment(ctx, r, sc.Env, start, okm, failm, cmd, args...)
-		}
+	as := commandUtils.Me()
+	if sc.As == "env" {
+		as = commandUtils.NewCommandAsDifferentUser("env")
+	}
+	entry := sc.entry()
+	ep, known := entryPoints[entry]
+	if !known || ep.kind != sc.Kind || (len(sc.Env) > 0 && !ep.env) || (sc.Cancel == "method" && !ep.object) {
+		o.ErrKind = "setup:other"
+		o.ErrText = "harness: scenario not runnable through entry point " + entry
+		return o
+	}
+	finish := func(err error) observation {
 		o.ErrKind = errKind(err)
 		if err != nil {
 			o.ErrText = err.Error()
@@ -434,12 +428,59 @@ func runChild(sc scenario, attempt int) observation {
 		o.Log = r.snapshot()
 		return o
 	}
-	var p *subprocess.Subprocess
 	var err error
-	if len(sc.Env) == 0 {
+	switch entry {
+	// ---- Output...: run and return the text
+	case "Output":
+		o.Text, err = subprocess.Output(ctx, r, cmd, args...)
+		return finish(err)
+	case "OutputWithEnvironment":
+		o.Text, err = subprocess.OutputWithEnvironment(ctx, r, sc.Env, cmd, args...)
+		return finish(err)
+	case "OutputAs":
+		o.Text, err = subprocess.OutputAs(ctx, r, as, cmd, args...)
+		return finish(err)
+	case "OutputAsWithEnvironment":
+		o.Text, err = subprocess.OutputAsWithEnvironment(ctx, r, sc.Env, as, cmd, args...)
+		return finish(err)
+	// ---- Execute...: run
+	case "Execute":
+		interrupt(cancel)
+		return finish(subprocess.Execute(ctx, r, start, okm, failm, cmd, args...))
+	case "ExecuteWithEnvironment":
+		interrupt(cancel)
+		return finish(subprocess.ExecuteWithEnvironment(ctx, r, sc.Env, start, okm, failm, cmd, args...))
+	case "ExecuteAs":
+		interrupt(cancel)
+		return finish(subprocess.ExecuteAs(ctx, r, start, okm, failm, as, cmd, args...))
+	case "ExecuteAsWithEnvironment":
+		interrupt(cancel)
+		return finish(subprocess.ExecuteAsWithEnvironment(ctx, r, sc.Env, start, okm, failm, as, cmd, args...))
+	case "ExecuteWithSudo":
+		interrupt(cancel)
+		return finish(subprocess.ExecuteWithSudo(ctx, r, start, okm, failm, cmd, args...))
+	}
+	// ---- constructors / Setup...: an object, then (*Subprocess).Execute
+	var p *subprocess.Subprocess
+	switch entry {
+	case "New":
 		p, err = subprocess.New(ctx, r, start, okm, failm, cmd, args...)
-	} else {
+	case "NewWithEnvironment":
 		p, err = subprocess.NewWithEnvironment(ctx, r, sc.Env, start, okm, failm, cmd, args...)
+	case "Subprocess.Setup":
+		p = new(subprocess.Subprocess)
+		err = p.Setup(ctx, r, start, okm, failm, cmd, args...)
+	case "Subprocess.SetupWithEnvironment":
+		p = new(subprocess.Subprocess)
+		err = p.SetupWithEnvironment(ctx, r, sc.Env, start, okm, failm, cmd, args...)
+	case "Subprocess.SetupAs":
+		p = new(subprocess.Subprocess)
+		err = p.SetupAs(ctx, r, start, okm, failm, as, cmd, args...)
+	case "Subprocess.SetupAsWithEnvironment":
+		p = new(subprocess.Subprocess)
+		err = p.SetupAsWithEnvironment(ctx, r, sc.Env, start, okm, failm, as, cmd, args...)
+	default:
+		panic("entryPoints and runChild disagree on " + entry)
 	}
 	if err != nil {
 		o.ErrKind = "setup:" + errKind(err)
@@ -451,13 +492,102 @@ func runChild(sc scenario, attempt int) observation {
 	} else {
 		interrupt(cancel)
 	}
-	err = p.Execute()
-	o.ErrKind = errKind(err)
-	if err != nil {
-		o.ErrText = err.Error()
+	return finish(p.Execute())
+}
+
+// entryPoints: every public function / method of package subprocess which takes the loggers (and with them the start /
+// success / failure messages, or produces the end message), and how the harness can drive it. The list is compared on
+// every run with the one translator-c18 extracts from the source (gen_facts.json): an entry point of the package which
+// is missing here is a failure of the check (fail closed), see checkEntryPoints.
+type entryPoint struct {
+	kind   string // exec | output
+	env    bool   // takes additional environment variables
+	as     bool   // takes a command translator
+	object bool   // yields a *Subprocess (Cancel() can be called)
+}
+
+var entryPoints = map[string]entryPoint{
+	"New": {"exec", false, false, true}, "NewWithEnvironment": {"exec", true, false, true},
+	"Subprocess.Setup": {"exec", false, false, true}, "Subprocess.SetupWithEnvironment": {"exec", true, false, true},
+	"Subprocess.SetupAs": {"exec", false, true, true}, "Subprocess.SetupAsWithEnvironment": {"exec", true, true, true},
+	"Execute": {"exec", false, false, false}, "ExecuteWithEnvironment": {"exec", true, false, false},
+	"ExecuteAs": {"exec", false, true, false}, "ExecuteAsWithEnvironment": {"exec", true, true, false},
+	"ExecuteWithSudo": {"exec", false, false, false},
+	"Output":          {"output", false, false, false}, "OutputWithEnvironment": {"output", true, false, false},
+	"OutputAs": {"output", false, true, false}, "OutputAsWithEnvironment": {"output", true, true, false},
+}
+
+func entryNames(kind string) []string {
+	var out []string
+	for n, e := range entryPoints {
+		if e.kind == kind && n != "ExecuteWithSudo" {
+			out = append(out, n)
+		}
 	}
-	o.Log = r.snapshot()
-	return o
+	sort.Strings(out)
+	return out
+}
+
+// entry: the entry point of a scenario (scenarios of earlier replays name none: Func / Env decide as they used to).
+func (sc scenario) entry() string {
+	if sc.Entry != "" {
+		return sc.Entry
+	}
+	switch {
+	case sc.Kind == "output" && sc.Func && len(sc.Env) == 0:
+		return "Output"
+	case sc.Kind == "output":
+		return "OutputWithEnvironment"
+	case sc.Func && sc.Cancel != "method" && len(sc.Env) == 0:
+		return "Execute"
+	case sc.Func && sc.Cancel != "method":
+		return "ExecuteWithEnvironment"
+	case len(sc.Env) == 0:
+		return "New"
+	}
+	return "NewWithEnvironment"
+}
+
+// pickEntry chooses, deterministically from n, an entry point able to run the scenario.
+func (sc *scenario) pickEntry(n int) {
+	var ok []string
+	for _, name := range entryNames(sc.Kind) {
+		e := entryPoints[name]
+		if (len(sc.Env) > 0 && !e.env) || (sc.Cancel == "method" && !e.object) {
+			continue
+		}
+		ok = append(ok, name)
+	}
+	sc.Entry = ok[n%len(ok)]
+	if entryPoints[sc.Entry].as && (n/len(ok))%2 == 1 && sc.NotFound == "" { // `env` would start, and fail itself
+
+		sc.As = "env"
+	}
+}
+
+// checkEntryPoints: the public entry points found in the source by the translator must all be driven by this harness.
+func checkEntryPoints(r *h.Run) {
+	root := os.Getenv("VERIF_ROOT")
+	if root == "" {
+		root = "/verif"
+	}
+	var g struct {
+		EntryPoints []string `json:"entry_points"`
+	}
+	bs, err := os.ReadFile(filepath.Join(root, "coq", "C18", "gen_facts.json"))
+	if err == nil {
+		err = json.Unmarshal(bs, &g)
+	}
+	if err != nil || len(g.EntryPoints) == 0 {
+		r.Fail("entry-point-list-missing", fmt.Sprintf("the list of public entry points extracted from the source cannot be read (%v)", err), nil)
+		return
+	}
+	for _, n := range g.EntryPoints {
+		if _, ok := entryPoints[n]; !ok {
+			r.Fail("entry-point-not-driven", "package subprocess has the public entry point "+n+" which takes the loggers / messages and which this harness does not drive", map[string]string{"entry_point": n})
+		}
+	}
+	r.Note(fmt.Sprintf("%d public entry points found in the source, all driven", len(g.EntryPoints)))
 }
 
 // settleDelay: how long after Execute / Output returned the recording logger is inspected again. Anything the library
@@ -501,7 +631,7 @@ func (sc scenario) envValue(name string) string {
 
 // expectedBytes: what the child writes on each stream before it ends (or before it hangs, for interrupted runs).
 func (sc scenario) expectedBytes() (out, errb []byte) {
-	if sc.NotFound != "" || sc.Cancel == "pre" {
+	if sc.NotFound != "" || sc.Cancel == "pre" || sc.viaAbsentSudo() {
 		return nil, nil
 	}
 	if sc.Sh != "" {
@@ -523,9 +653,20 @@ func (sc scenario) expectedBytes() (out, errb []byte) {
 	return
 }
 
-func (sc scenario) expectSuccess() bool {
-	return sc.Exit == 0 && sc.Signal == 0 && sc.Cancel == "" && sc.NotFound == ""
+// viaAbsentSudo: ExecuteWithSudo where there is no sudo: the command cannot be started (exec.ErrNotFound for "sudo").
+func (sc scenario) viaAbsentSudo() bool {
+	return sc.entry() == "ExecuteWithSudo" && sudoState == "absent"
 }
+
+func (sc scenario) expectSuccess() bool {
+	return !sc.viaAbsentSudo() && sc.Exit == 0 && sc.Signal == 0 && sc.Cancel == "" && sc.NotFound == ""
+}
+
+// custom start / success / failure messages: distinct, non-empty and unique to the case (ID), so that the oracle sees
+// WHICH text reached WHICH logger.
+func (sc scenario) mStart() string { return mStartP + sc.ID + "@@" }
+func (sc scenario) mOK() string    { return mOKP + sc.ID + "@@" }
+func (sc scenario) mFail() string  { return mFailP + sc.ID + "@@" }
 
 func (sc scenario) cmdPath() string {
 	if sc.NotFound != "" {
@@ -544,7 +685,7 @@ func (sc scenario) isFramework(e logEntry) bool {
 		return false
 	}
 	if sc.Msgs {
-		return e.Msg == mStart || e.Msg == mOK || e.Msg == mFail
+		return strings.HasPrefix(e.Msg, mStartP) || strings.HasPrefix(e.Msg, mOKP) || strings.HasPrefix(e.Msg, mFailP) // any case's marker
 	}
 	return strings.Contains(e.Msg, "`"+sc.cmdPath()+"`")
 }
@@ -675,7 +816,7 @@ func oracleChild(sc scenario, o observation) []verdict {
 				nfw++
 			}
 		}
-		okFirst := len(entries) > 0 && sc.isFramework(entries[0]) && entries[0].Ch == "o" && (!sc.Msgs || entries[0].Msg == mStart)
+		okFirst := len(entries) > 0 && sc.isFramework(entries[0]) && entries[0].Ch == "o" && (!sc.Msgs || entries[0].Msg == sc.mStart())
 		if !okFirst {
 			add("start-not-first", "the start message is not the first message logged (through Log)")
 		}
@@ -683,8 +824,8 @@ func oracleChild(sc scenario, o observation) []verdict {
 			add("end-not-last", "the last message logged is not a success / failure message")
 		} else {
 			last := entries[len(entries)-1]
-			isOK := last.Ch == "o" && (!sc.Msgs || last.Msg == mOK)
-			isFail := last.Ch == "e" && (!sc.Msgs || last.Msg == mFail)
+			isOK := last.Ch == "o" && (!sc.Msgs || last.Msg == sc.mOK())
+			isFail := last.Ch == "e" && (!sc.Msgs || last.Msg == sc.mFail())
 			switch {
 			case !isOK && !isFail:
 				add("end-wrong-kind", fmt.Sprintf("the end message is neither the success message on the output logger nor the failure message on the error logger (%s %q)", last.Ch, clip(last.Msg)))
@@ -803,11 +944,11 @@ func coqBytes(b []byte) string {
 func (sc scenario) coqEntry(e logEntry, framework bool) string {
 	if framework {
 		switch {
-		case e.Ch == "o" && sc.Msgs && e.Msg == mStart:
+		case e.Ch == "o" && sc.Msgs && e.Msg == sc.mStart():
 			return "EStart"
-		case e.Ch == "o" && sc.Msgs && e.Msg == mOK:
+		case e.Ch == "o" && sc.Msgs && e.Msg == sc.mOK():
 			return "EEndOk"
-		case e.Ch == "e" && sc.Msgs && e.Msg == mFail && e.NArgs == 2:
+		case e.Ch == "e" && sc.Msgs && e.Msg == sc.mFail() && e.NArgs == 2:
 			return "EEndFail"
 		}
 	}
@@ -879,6 +1020,8 @@ func (sc scenario) coqOutcome() (ctx, pctx, outcome string) {
 		return "(Some CtxCancelled)", "(Some CtxCancelled)", "(StartCtx CtxCancelled)"
 	}
 	switch {
+	case sc.viaAbsentSudo():
+		outcome = "StartNotFound"
 	case sc.NotFound != "" && strings.Contains(sc.NotFound, "/"):
 		outcome = "StartFailed" // no $PATH lookup: exec reports the error of the file system, not exec.ErrNotFound
 	case sc.NotFound != "":
@@ -1205,6 +1348,40 @@ func slowLoggers(r *h.Run) []scenario {
 	return scs
 }
 
+// everyEntryPoint: each public entry point with custom (distinct, unique) messages and with the default ones, for exit
+// status 0 and non-zero, the ...As... ones through both command translators.
+func everyEntryPoint() []scenario {
+	var scs []scenario
+	names := append(append(entryNames("exec"), entryNames("output")...), "ExecuteWithSudo")
+	for _, name := range names {
+		e := entryPoints[name]
+		if name == "ExecuteWithSudo" && sudoState == "broken" {
+			continue
+		}
+		translators := []string{""}
+		if e.as {
+			translators = []string{"", "env"}
+		}
+		for _, as := range translators {
+			for _, exit := range []int{0, 3} {
+				for _, msgs := range []bool{true, false} {
+					if e.kind == "output" && !msgs {
+						continue
+					}
+					sc := childSc(e.kind, msgs && e.kind == "exec", exit, 0, w(1, "out of "+name+"\nunterminated", 0), w(2, "err of "+name+"\n", 0))
+					sc.Entry, sc.As = name, as
+					if e.env {
+						sc.Env = []string{"C18_VAR=through " + name}
+						sc.Ops = append(sc.Ops, op{S: 1, Env: "C18_VAR"})
+					}
+					scs = append(scs, sc)
+				}
+			}
+		}
+	}
+	return scs
+}
+
 func slow(sc scenario) bool { return sc.LogDelayUs > 0 || sc.StallMs > 0 }
 
 func randomAdapter(r *h.Run) scenario {
@@ -1288,6 +1465,7 @@ func randomChild(r *h.Run) scenario {
 // ---------------------------------------------------------------------------------------------------------------------
 
 func key(sc scenario) string {
+	sc.ID = ""
 	bs, _ := json.Marshal(sc)
 	return fmt.Sprintf("%x", sha256.Sum256(bs))[:16]
 }
@@ -1333,6 +1511,13 @@ func main() {
 		os.Exit(2)
 	}
 	defer os.RemoveAll(scratch)
+	if _, err := exec.LookPath("sudo"); err != nil {
+		sudoState = "absent"
+	} else if exec.Command("sudo", "-n", "true").Run() == nil {
+		sudoState = "works"
+	} else {
+		sudoState = "broken"
+	}
 	r.Rule("a scenario counts as distinct and non-trivial when its content (chunk list, or the child's write script with streams, cuts, pauses, ending, environment, entry point) differs from every other scenario of the run and it makes the child / the chunks carry at least one byte or end other than by exit status 0")
 
 	var scs []scenario
@@ -1343,12 +1528,28 @@ func main() {
 		scs = append(scs, deterministicAdapter()...)
 		scs = append(scs, deterministicChildren(r)...)
 		scs = append(scs, slowLoggers(r)...)
+		scs = append(scs, everyEntryPoint()...)
 		for i := 0; i < r.N(300, 3000); i++ {
 			scs = append(scs, randomAdapter(r))
 		}
 		for i := 0; i < r.N(160, 1500); i++ {
 			scs = append(scs, randomChild(r))
 		}
+	}
+
+	for i := range scs {
+		if scs[i].Kind == "adapter" {
+			continue
+		}
+		if scs[i].ID == "" {
+			scs[i].ID = fmt.Sprintf("%d-%d", r.Seed, i)
+		}
+		if scs[i].Entry == "" && r.ReplayF == "" {
+			scs[i].pickEntry(i) // spread all other scenarios over the entry points able to run them
+		}
+	}
+	if r.ReplayF == "" {
+		checkEntryPoints(r)
 	}
 
 	// run: adapter cases inline, children on a small pool (results are kept by index: the run is deterministic in -seed)
@@ -1437,10 +1638,9 @@ func main() {
 			default:
 				r.Count("logger: instant")
 			}
-			if sc.Func {
-				r.Count("entry:package-level function")
-			} else {
-				r.Count("entry:New + method / ...WithEnvironment")
+			r.Count("entry:" + sc.entry())
+			if sc.As != "" {
+				r.Count("command translator:" + sc.As)
 			}
 			if !sc.Msgs && sc.Kind == "exec" {
 				r.Count("default messages")
